@@ -66,7 +66,7 @@ def run_one(prop, mdir, tier, checks_extra=()):
             c = subprocess.run(["/venv/bin/python", demo], env=dict(env, PYTHONPATH="/repo"), capture_output=True, text=True, timeout=600, cwd="/tmp")
             m = subprocess.run(["/venv/bin/python", demo], env=dict(env, PYTHONPATH=wt), capture_output=True, text=True, timeout=600, cwd="/tmp")
             res["demo_clean_rc"], res["demo_mutant_rc"] = c.returncode, m.returncode
-            t = sh(["/tmp/seedtools/run_tests.sh", wt]) if os.path.exists("/tmp/seedtools/run_tests.sh") else None
+            t = sh([os.path.join(ROOT, "tools", "seeding", "run_tests.sh"), wt])
             res["tests"] = (t.stdout.strip().splitlines() or ["?"])[1] if t else "not run"
         for p in [prop] + list(checks_extra):
             t1 = time.time()
